@@ -30,17 +30,34 @@ def solve(fs, timeout_ms):
     return r, s, time.time() - t
 
 
+# Once a few obligations of one function have stayed undecided the function's verdict is settled (undecided, or a violation
+# when a bounded replay exists); the remaining obligations get the cheap stages only, so that a check on a broken tree ends
+# in minutes.  On a tree where everything discharges this never triggers.
+BUDGET = {"undecided": 0, "limit": 2}
+
+
+def _spent():
+    return BUDGET["undecided"] >= BUDGET["limit"]
+
+
 def solve_assert(aass, apc, af, timeout):
+    r_, s_, dt_ = _solve_assert(aass, apc, af, timeout)
+    if r_ != z3.unsat:
+        BUDGET["undecided"] += 1
+    return r_, s_, dt_
+
+
+def _solve_assert(aass, apc, af, timeout):
     """intermediate obligation (loop invariant, callee pre-condition): cheapest first - the goal alone (frames that hold by
     construction), the quantifier-free facts only, everything, everything + generic instances at the goal's constants"""
     r_, s_, dt_ = solve([z3.Not(af)], 500)
     if r_ != z3.unsat:
         r_, s_, dt_ = solve([a_ for a_ in aass if _qf(B(a_))] + list(apc) + [z3.Not(af)], 2000)
     if r_ != z3.unsat:
-        r_, s_, dt_ = solve(list(aass) + list(apc) + [z3.Not(af)], timeout)
-    if r_ == z3.unknown:
+        r_, s_, dt_ = solve(list(aass) + list(apc) + [z3.Not(af)], min(timeout, 3000) if _spent() else timeout)
+    if r_ == z3.unknown and not _spent():
         r_, s_, dt_ = solve(list(aass) + list(apc) + generic_instances([B(a_) for a_ in aass], [c_ for c_ in _consts(af)]) + [z3.Not(af)], 3 * timeout)
-    if r_ == z3.unknown:
+    if r_ == z3.unknown and not _spent():
         # model-based quantifier instantiation finds instances E-matching has no trigger for (terms under the lambdas of the
         # deepcopy model); tried on the hypotheses that share a heap array with the goal, then on all of them.  An `unsat`
         # is sound whichever strategy produced it and whichever hypotheses were left out.
@@ -307,6 +324,7 @@ def run_method(world, cname, mname, contract, iter_bound=2, attr_access=None, ca
 
 
 def verify_mutator(obs, world, cname, mname, contract, pid_map, timeout=20000, iter_bound=2, callee_contracts=None, chg_one_slot=False, loop_contracts=None):
+    BUDGET["undecided"] = 0
     """pid_map: {"C19": bool, "C09": bool} which property's clauses to emit"""
     base = f"{REL[cname]}:{cname}.{mname}"
     try:
@@ -443,7 +461,7 @@ def flush(obs, pending, pre, instances, base, i, kind, p, sym, raised, timeout):
                 continue
         # stage A: the quantified invariant with E-matching only (milliseconds when it works);
         # stage B/C: plus ground instances of the invariant at the clause's Skolem constants and the arguments
-        for attempt in range(3):
+        for attempt in range(1 if _spent() else 3):
             solver = z3.Solver()
             solver.set("timeout", min(timeout, 3000) if attempt == 0 else (timeout if attempt == 1 else 3 * timeout))
             solver.set("auto_config", False)
@@ -458,7 +476,7 @@ def flush(obs, pending, pre, instances, base, i, kind, p, sym, raised, timeout):
             r = solver.check()
             if r != z3.unknown:
                 break
-        if r == z3.unknown:
+        if r == z3.unknown and not _spent():
             # a VC that is not valid usually ends `unknown` under E-matching; model-based instantiation may find the model
             goal_arrays = set()
             for f in fs:
@@ -483,6 +501,7 @@ def flush(obs, pending, pre, instances, base, i, kind, p, sym, raised, timeout):
             obs.append(Ob(name, kind, FAILED, "z3", dt, detail=f"{what}; solver witness (arguments): {wit}; path outcome {p.outcome[0]} {p.outcome[1] if raised else ''}",
                           solver_output=f"sat\narguments: {wit}\n", witness={"clause": clause, "args": wit}))
         else:
+            BUDGET["undecided"] += 1
             obs.append(Ob(name, kind, UNDECIDED, "z3", dt, detail=f"{what}: {solver.reason_unknown()}"))
 
 
@@ -535,6 +554,7 @@ def widen(f, h: Heap):
 
 
 def verify_query(obs, world, cname, qname, contract, timeout=20000):
+    BUDGET["undecided"] = 0
     mname = contract.__class__.__name__
     base = f"{REL[cname]}:{cname}.{qname}"
     try:
@@ -708,6 +728,48 @@ def verify_invert(obs, world, pid="C06", timeout=10000):
                           detail="" if hd.get("self_same") else "invert() assigned to a field of self"))
 
 
+def verify_descr_init(obs, world, pid="C11", timeout=10000):
+    """the constructor contract used for `d.__class__(image of d.atoms, d.parity)` while the class of d is still open
+    (heap.LazyDescrClass): every descriptor class is built by _StereoMixin.__init__, which accepts a tuple of the class's
+    length and stores atoms and parity unchanged"""
+    for cname in H.ATOM_DESCR + H.BOND_DESCR:
+        base = f"stereodescriptors.py:{cname}.__init__"
+        cls = world.cls(cname)
+        c, m = cls.find("__init__")
+        where = f"{c.module.relpath}:{c.name}" if c is not None else None
+        obs.append(Ob(f"{pid}/{base}/constructor-is-the-shared-one", "proof", DISCHARGED if where == "stereodescriptors.py:_StereoMixin" else FAILED, "ast",
+                      detail="" if where == "stereodescriptors.py:_StereoMixin" else f"__init__ is defined in {where}; the same-class constructor contract is stated for _StereoMixin.__init__"))
+        it = Interp(world)
+        GM.install(it)
+
+        def thunk(interp, handles, cname=cname, cls=cls):
+            interp.state["heap"] = Heap("pre")
+            o, t = GM.sym_descr(interp, "src", [cname])
+            atoms = tuple(H.term_oi(GM.d_slot(t, j)) for j in range(H.DESCR_LEN[cname]))
+            par = H.term_oi(H.DescrS.par(t))
+            handles["t"] = t
+            res = interp.instantiate(cls, [atoms, par], {})
+            handles["res"] = res
+            return res
+
+        try:
+            paths = it.run(thunk)
+        except OutOfSubset as e:
+            obs.append(Ob(f"{pid}/{base}", "proof", ERROR, detail=f"out of subset: {e}"))
+            continue
+        for i, p in enumerate(paths):
+            hd = p.handles
+            pre = list(p.assumptions) + list(p.pc)
+            if "t" not in hd or p.outcome[0] == "raise":
+                r_, s_, dt_ = solve(pre, timeout)
+                obs.append(Ob(f"{pid}/{base}/accepts-a-tuple-of-the-class-length#path{i}", "proof", DISCHARGED if r_ == z3.unsat else (FAILED if r_ == z3.sat else UNDECIDED), "z3", dt_,
+                              detail="" if r_ == z3.unsat else f"constructor raised {p.outcome[1:]}"))
+                continue
+            r_, s_, dt_ = solve(pre + [H.descr_term(hd["res"]) != hd["t"]], timeout)
+            obs.append(Ob(f"{pid}/{base}/stores-atoms-and-parity-unchanged#path{i}", "proof", DISCHARGED if r_ == z3.unsat else (FAILED if r_ == z3.sat else UNDECIDED), "z3", dt_,
+                          detail="" if r_ == z3.unsat else "the constructed descriptor differs from (class, atoms, parity)"))
+
+
 def _invert_replay(solver, t, cname):
     """the solver's counter-model as a concrete descriptor, replayed on the real invert()"""
     try:
@@ -813,7 +875,8 @@ def fresh_clauses(vR: "GM.View", A0, cname):
 
 
 def verify_derivation(obs, world, cname, dname, contract, pid, timeout=20000, iter_bound=1, chg_one_slot=False, want=("view", "wf", "fresh", "source"), loop_contracts=None,
-                      callee_contracts=None, focus_loop=None, summarise=None):
+                      callee_contracts=None, focus_loop=None, summarise=None, shard=None):
+    BUDGET["undecided"] = 0
     base = f"{REL[cname]}:{cname}.{dname}"
     try:
         paths = run_derivation(world, cname, contract, iter_bound, chg_one_slot, loop_contracts, callee_contracts, focus_loop, summarise)
@@ -830,6 +893,16 @@ def verify_derivation(obs, world, cname, dname, contract, pid, timeout=20000, it
         hd = p.handles
         if focus_loop and not hd.get("focused"):
             continue  # fewer loops than focus_loop on this path: covered by the other tasks
+        if shard is not None:
+            # the paths of one loop are shared out among several worker processes by a key of the path condition (every
+            # feasible path is enumerated by every worker with the same recorded decisions, whatever the pruning managed
+            # to cut elsewhere, so exactly one worker takes it)
+            import hashlib
+
+            key_ = int(hashlib.md5("|".join(z3.simplify(B(f)).sexpr() for f in p.pc).encode()).hexdigest()[:8], 16)
+            if key_ % shard[1] != shard[0]:
+                continue
+            i = f"{key_:08x}@L{focus_loop}"  # path label: stable across runs
         if "v0" not in hd:
             obs.append(Ob(f"E1/{base}#path{i}", "proof", ERROR, detail="path ended before the call"))
             continue
@@ -956,6 +1029,8 @@ def for_hook(interp, s, fr, iterable):
             fr.env[name] = H.SetRef(H.SET_TYPES[tname], h.s_new(H.SET_TYPES[tname]))
         elif isinstance(cur, dict) and not cur and tname in H.DICT_TYPES:
             fr.env[name] = H.DictRef(H.DICT_TYPES[tname], h.d_new(H.DICT_TYPES[tname]))
+            if isinstance(cur, GM.AutoDict):
+                fr.env[name].auto = True  # defaultdict: [] on a missing key inserts a new empty inner dict
     ctx = LoopCtx(interp, fr, g, h.snapshot(), C)
     empty = z3.K(esort, z3.BoolVal(False))
     # focus_loop = n: only the n-th loop reached is checked (init + generic step), the others are summarised by their
